@@ -158,9 +158,12 @@ type Runner struct {
 	sts     map[int]*state.StateDB
 	commits []common.Hash
 	dead    bool // a panic left some StateDB half-updated: stop
-	// hidden-state bookkeeping: why a live, modified object is neither dirty nor armed
-	// (so that its next write will not reach the trie): the kind of the op that made it so
-	orphanCause map[orphanKey]string
+	// ---- bookkeeping used ONLY to decide whether a failure has the exact shape of a known defect
+	hist     []Op                       // ops applied so far (successful or not)
+	orphan   map[orphanKey]orphanInfo   // live, modified, not dirty, callback consumed: since which op
+	snaps    map[int][]snapHidden       // live snapshots per StateDB with the hidden state when taken
+	finTrue  map[int]bool               // a Finalise/IntermediateRoot/Commit(true) ran on this StateDB (or its Copy source)
+	lastFinB map[int]int                // last finalise-like flag on this StateDB: 0 none, 1 false, 2 true
 }
 
 type orphanKey struct {
@@ -168,59 +171,186 @@ type orphanKey struct {
 	a   int64
 }
 
+type hid struct{ present, armed, deleted, dirty, inTrie, leafEmpty bool }
+
+type snapHidden struct {
+	id  int64
+	at  int
+	hid map[int64]hid
+}
+
+// orphanInfo: which op made the object an orphan; for a revert, the reverted region and the
+// hidden state at its snapshot
+type orphanInfo struct {
+	kind string
+	at   int
+	snap *snapHidden
+}
+
+func hidOf(s *state.StateDB, a int64) hid {
+	h := s.VerifHidden(addrOf(a))
+	_, in := s.VerifLeaf(addrOf(a))
+	return hid{h.Present, h.Armed, h.Deleted, s.VerifIsDirty(addrOf(a)), in, in && leafEmpty(s, a)}
+}
+
 func isOrphan(s *state.StateDB, a int64) bool {
 	h := s.VerifHidden(addrOf(a))
 	return h.Present && !h.Deleted && !h.Armed && !s.VerifIsDirty(addrOf(a))
 }
 
-// track is called after every successful op
-func (r *Runner) track(o Op) {
-	if o.K == "copy" || o.K == "reopen" {
+func isWrite(k string) bool {
+	switch k {
+	case "create", "addbal", "subbal", "setbal", "setnonce", "setcode", "setstate", "suicide":
+		return true
+	}
+	return false
+}
+
+// region ops (from < idx < to) on (sid, a): is there a zero-value AddBalance (a touch candidate)? any other write?
+func (r *Runner) region(sid int, a int64, from, to int) (touch, other bool) {
+	for i := from + 1; i < to && i < len(r.hist); i++ {
+		o := r.hist[i]
+		if o.S != sid || o.A != a || !isWrite(o.K) {
+			continue
+		}
+		if o.K == "addbal" && bigOf(o.V).Sign() == 0 {
+			touch = true
+		} else {
+			other = true
+		}
+	}
+	return
+}
+
+// track is called after every successful op (ans = its answer)
+func (r *Runner) track(o Op, ans string) {
+	idx := len(r.hist) - 1
+	var reverted *snapHidden
+	switch o.K {
+	case "copy":
 		for _, a := range addrs {
-			delete(r.orphanCause, orphanKey{o.Dst, a})
+			delete(r.orphan, orphanKey{o.Dst, a})
+		}
+		r.snaps[o.Dst] = nil
+		r.finTrue[o.Dst] = r.finTrue[o.S]
+		r.lastFinB[o.Dst] = 0
+	case "reopen", "new":
+		d := o.Dst
+		if o.K == "new" {
+			d = o.S
+		}
+		for _, a := range addrs {
+			delete(r.orphan, orphanKey{d, a})
+		}
+		r.snaps[d], r.finTrue[d], r.lastFinB[d] = nil, false, 0
+	case "snapshot":
+		var id int64
+		fmt.Sscanf(ans, "id 0x%x", &id)
+		h := map[int64]hid{}
+		for _, a := range addrs {
+			h[a] = hidOf(r.sts[o.S], a)
+		}
+		r.snaps[o.S] = append(r.snaps[o.S], snapHidden{id, idx, h})
+	case "revert":
+		l := r.snaps[o.S]
+		for i := range l {
+			if l[i].id == o.Id {
+				c := l[i]
+				reverted = &c
+				r.snaps[o.S] = l[:i]
+				break
+			}
+		}
+	case "finalise", "iroot", "commit":
+		r.snaps[o.S] = nil
+		if o.B {
+			r.finTrue[o.S] = true
+			r.lastFinB[o.S] = 2
+		} else {
+			r.lastFinB[o.S] = 1
 		}
 	}
 	for sid, s := range r.sts {
 		for _, a := range addrs {
 			key := orphanKey{sid, a}
 			if !isOrphan(s, a) {
-				delete(r.orphanCause, key)
-			} else if _, ok := r.orphanCause[key]; !ok {
-				r.orphanCause[key] = o.K
+				delete(r.orphan, key)
+			} else if _, ok := r.orphan[key]; !ok {
+				info := orphanInfo{kind: o.K, at: idx}
+				if o.K == "revert" && sid == o.S {
+					info.snap = reverted
+				}
+				r.orphan[key] = info
 			}
 		}
 	}
 }
 
-// classify names the known defect class that explains why address a of state sid
-// reads differently from what the trie holds ("" = none recognised)
+const (
+	sigK1 = "revert-leaves-dirty-empty-account-deleted"
+	sigK2 = "write-after-commit-lost"
+	sigK3 = "write-after-reverted-touch-lost"
+	sigK4 = "ripemd-touch-survives-revert"
+	sigK5 = "deleted-object-rewritten-by-later-finalise"
+	sigK6 = "reverted-touch-undirties-dirty-object"
+)
+
+// classify returns a known signature ONLY when the hidden state of (sid, a) and the history that
+// led to it have exactly the shape of that known defect; "" otherwise (the caller then reports
+// a signature that embeds the concrete history, which no known finding can match).
+//
+//	K2: the object became (not dirty, callback consumed) at a Commit and a write to it followed
+//	K3: ... at a RevertToSnapshot whose region contains AddBalance(a,0) and whose snapshot saw the
+//	    object clean (not dirty; absent or armed)
+//	K6: same, but the snapshot saw the object dirty AND armed (a Copy re-arms dirty objects)
+//	K5: stateObjects says deleted (not by self-destruct), the trie holds the leaf again, the last
+//	    finalise-like call on this StateDB had deleteEmptyObjects=false and an earlier one had true
 func (r *Runner) classify(sid int, a int64) string {
 	st := r.sts[sid]
+	if st == nil {
+		return ""
+	}
 	if isOrphan(st, a) {
-		switch r.orphanCause[orphanKey{sid, a}] {
+		info := r.orphan[orphanKey{sid, a}]
+		switch info.kind {
 		case "commit":
-			return "write-after-commit-lost"
+			for i := info.at + 1; i < len(r.hist); i++ {
+				if o := r.hist[i]; o.S == sid && o.A == a && isWrite(o.K) {
+					return sigK2
+				}
+			}
 		case "revert":
-			return "write-after-reverted-touch-lost"
+			if info.snap != nil {
+				touch, _ := r.region(sid, a, info.snap.at, info.at)
+				h := info.snap.hid[a]
+				if touch && !h.dirty && (!h.present || h.armed) {
+					return sigK3
+				}
+				if touch && h.dirty && h.present && h.armed {
+					return sigK6
+				}
+			}
 		}
 	}
 	h := st.VerifHidden(addrOf(a))
-	if h.Present && h.Deleted {
+	if h.Present && h.Deleted && !h.Suicided && r.finTrue[sid] && r.lastFinB[sid] == 1 {
 		if _, ok := st.VerifLeaf(addrOf(a)); ok {
-			return "deleted-object-rewritten-by-later-finalise"
+			return sigK5
 		}
 	}
 	return ""
 }
 
 func newRunner() *Runner {
-	return &Runner{db: state.NewDatabase(aquadb.NewMemDatabase()), sts: map[int]*state.StateDB{}, orphanCause: map[orphanKey]string{}}
+	return &Runner{db: state.NewDatabase(aquadb.NewMemDatabase()), sts: map[int]*state.StateDB{}, orphan: map[orphanKey]orphanInfo{},
+		snaps: map[int][]snapHidden{}, finTrue: map[int]bool{}, lastFinB: map[int]int{}}
 }
 
 // apply runs one op on the implementation; the answer uses the model's vocabulary.
 // For iroot/commit the root is returned separately.
 func (r *Runner) apply(o Op) (ans string, root common.Hash) {
 	st := r.sts[o.S]
+	r.hist = append(r.hist, o)
 	p, pv := vh.CatchPanic(func() {
 		switch o.K {
 		case "new":
@@ -308,6 +438,9 @@ func (r *Runner) apply(o Op) (ans string, root common.Hash) {
 			r.dead = true
 		}
 		return "panic", common.Hash{}
+	}
+	if ans != "err" {
+		r.track(o, ans)
 	}
 	return ans, root
 }
@@ -694,7 +827,6 @@ func (k *Checker) runProgram(class string, prog []Op, withModel bool) {
 				}
 			}
 		}
-		r.track(o)
 		// beyond this point the implementation is internally inconsistent (stateObjects says deleted, the
 		// trie holds the leaf, possibly with a storage root that was never committed); the model does not
 		// track implementation behaviour past it.  O3 has reported it at the finalise that caused it.
@@ -727,12 +859,9 @@ func (k *Checker) runProgram(class string, prog []Op, withModel bool) {
 func replay(prog []Op, upto int) *Runner {
 	r := newRunner()
 	for i := 0; i <= upto; i++ {
-		ans, _ := r.apply(prog[i])
+		r.apply(prog[i])
 		if r.dead {
 			return nil
-		}
-		if ans != "panic" && ans != "err" {
-			r.track(prog[i])
 		}
 	}
 	return r
